@@ -251,6 +251,9 @@ def check_families(ctx):
         if p.outcome == "return" and isinstance(p.value, TupleV) and len(p.value.items) == 2:
             inter = p.value.items
             ia, ib = inter
+            # (alpha, betas): a scalar first, one beta per variable second (the drivers unpack them in that order)
+            ok_roles = isinstance(ia, Num) and ia.shape == () and isinstance(ib, Num) and ib.shape is not None and len(ib.shape) == 1 and nf_equal(lift(ib.shape[0]), lift(Pdim))
+            ctx.check(ok_roles, rule, "intermediate|roles", fi.loc(), "the family returns (alpha: scalar, betas: one per variable) in that order", found=f"({getattr(ia, 'shape', None)}, {getattr(ib, 'shape', None)})", expected="((), (p,))")
             scale_linear(ctx, "intermediate|alpha", fi.loc(), ia.nf, Atom("sym", "scale"))
             scale_linear(ctx, "intermediate|betas", fi.loc(), _betas_nf(exi, ib), Atom("sym", "scale"))
     if inter is None:
